@@ -9,7 +9,8 @@
   test / strtoll base / BOM bytes, the CHECKs that close a block);
 * `fix*` flags: whether the source carries the repairs of findings C11-F1..F4 (guard before converting
   at the end of the range, qid guard, blank CSV cell guard, leading end-of-line bytes skipped before the
-  comment test).  The hand-written model takes these flags as a parameter, so it follows the pinned and
+  comment test) and of C12-F3 (`fixCsvDelimGuard`: the blank CSV cell guard also stops at the delimiter; `fixCsvBlankGuard`
+  is true for the guard in either shape).  The hand-written model takes these flags as a parameter, so it follows the pinned and
   the repaired source alike; the theorems are stated for the repaired source and need every flag `true`.
 
 All char parameters are the unsigned byte value (`c : Nat`, 0..255); none of the extracted tests
@@ -182,6 +183,14 @@ SVM_PB = r'void LibSVMParser<IndexType, DType>::ParseBlock'
 FM_PB = r'void LibFMParser<IndexType, DType>::ParseBlock'
 CSV_PB = r'void CSVParser<IndexType, DType>::ParseBlock'
 
+CSV_GUARD_SET = r"\s*\{\s*v = DType\(0\);\s*endptr = const_cast<char \*>\(p\);"
+CSV_GUARD_LEND = (r"const char \*cell = p;\s*while \(cell != lend && \(isspace\(\*cell\) \|\| \*cell == '\\v'\)\) \{\s*\+\+cell;\s*\}\s*"
+                  r"if \(cell == lend\)" + CSV_GUARD_SET)
+CSV_GUARD_DELIM = (r"const char \*cell = p;\s*while \(cell != lend && \*cell != param_\.delimiter\[0\] && "
+                   r"\(isspace\(\*cell\) \|\| \*cell == '\\v'\)\) \{\s*\+\+cell;\s*\}\s*"
+                   r"if \(cell == lend \|\| \*cell == param_\.delimiter\[0\]\)" + CSV_GUARD_SET)
+CSV_NO_GUARD = r'char \*endptr;\s*DType v;\s*// if DType is float32\s*if \(std::is_same<DType, real_t>::value\) \{\s*v = strtof'
+
 SIZE = P('chunk.size', 'size', 64)
 NTH = P('nthread', 'nthread', 32)
 TID = P('tid', 'tid', 32)
@@ -292,10 +301,13 @@ ITEMS = [
          r"while \(p != lend && \(\*p == '\\n' \|\| \*p == '\\r'\)\) \{\s*\+\+p;\s*\}\s*std::ptrdiff_t advanced = IgnoreCommentAndBlank\(p, lend\);\s*p \+= advanced;\s*int r = ParsePair<real_t, real_t>",
          r"real_t weight;\s*std::ptrdiff_t advanced = IgnoreCommentAndBlank\(p, lend\);\s*p \+= advanced;\s*int r = ParsePair<real_t, real_t>",
          'leading end-of-line bytes of a line skipped before the comment test'),
-    flag('fixCsvBlankGuard', CSV,
-         r"const char \*cell = p;\s*while \(cell != lend && \(isspace\(\*cell\) \|\| \*cell == '\\v'\)\) \{\s*\+\+cell;\s*\}\s*if \(cell == lend\) \{\s*v = DType\(0\);\s*endptr = const_cast<char \*>\(p\);",
-         r'char \*endptr;\s*DType v;\s*// if DType is float32\s*if \(std::is_same<DType, real_t>::value\) \{\s*v = strtof',
+    # the guard exists in two shapes: CSV_GUARD_LEND (C11-3: blank up to the line end) and CSV_GUARD_DELIM (C12-3: the
+    # skip loop also stops at the delimiter, and a cell that is blank up to the delimiter is missing as well)
+    flag('fixCsvBlankGuard', CSV, r'(?:%s|%s)' % (CSV_GUARD_LEND, CSV_GUARD_DELIM), CSV_NO_GUARD,
          'a cell that is blank up to the line end is a missing value, no conversion'),
+    flag('fixCsvDelimGuard', CSV, CSV_GUARD_DELIM, r'(?:%s|%s)' % (CSV_GUARD_LEND, CSV_NO_GUARD),
+         'the blank-cell guard also stops at `param_.delimiter[0]`: a cell that is blank up to the delimiter is a '
+         'missing value (a white-space delimiter is not skipped by strtof / strtoll)'),
     flag('fixCsvBomGuard', CSV,
          r"IgnoreUTF8BOM\(&lbegin, &end\);\s*if \(lbegin == end \|\| \*lbegin == '\\n' \|\| \*lbegin == '\\r'\) \{[^}]*?while \(\(lbegin != end\) && \(\*lbegin == '\\n' \|\| \*lbegin == '\\r'\)\) \{\s*\+\+lbegin;\s*\}\s*continue;",
          r"IgnoreUTF8BOM\(&lbegin, &end\);\s*lend = lbegin \+ 1;",
